@@ -667,8 +667,27 @@ func (x *Xlat) builtin(st *State, fr *Frame, out *Outcomes, ce *ast.CallExpr, na
 			mm := x.merge(st2, st)
 			*st = *mm
 			return nil
+		case *types.Slice:
+			// clear(s): every element of s becomes the zero value, nothing outside the window changes
+			sl := x.ctx.Define("clr", x.eval(st, fr, out, ce.Args[0]))
+			et := u.Elem()
+			es := x.tm.SortOf(et)
+			key := x.tm.ElemsKey(et)
+			h := x.get(st, key, elemsSort(es))
+			res := x.ctx.Fresh("arrv", ArrSort(SInt, es))
+			i := Const("i!", SInt)
+			oldA := Sel(h, SArr(sl))
+			inr := And(App("<=", SBool, IntLit(0), i), App("<", SBool, i, SLen(sl)))
+			st.assume(Forall([]Bind{{"i!", SInt}}, Imp(inr, Eq(Sel(res, App("+", SInt, SOff(sl), i)), x.tm.Zero(et)))))
+			st.assume(Forall([]Bind{{"i!", SInt}}, Imp(Or(App("<", SBool, i, SOff(sl)), App(">=", SBool, i, App("+", SInt, SOff(sl), SLen(sl)))),
+				Eq(Sel(res, i), Sel(oldA, i)))))
+			h2 := x.setElems(st, key, es, h, Sto(h, SArr(sl), res), touchedWindow(sl, SLen(sl)))
+			lhs := x.atTerm(h2, sl, i, es)
+			st.assume(Forall([]Bind{{"i!", SInt}}, Imp(inr, Eq(lhs, x.tm.Zero(et))), []*Term{lhs}))
+			x.models["clear(slice): every element becomes the zero value (A5)"] = true
+			return nil
 		}
-		x.unsupp(ce.Pos(), "clear of non-map")
+		x.unsupp(ce.Pos(), "clear of non-map/non-slice")
 	case "panic":
 		x.safety(st, out, "panic", TFalse, ce.Pos(), "explicit panic reachable")
 		return nil
